@@ -268,6 +268,7 @@ ApplyOp(seg, op) ==
   CASE op.kind = "leaf_data"  -> [seg EXCEPT !.leaf_data[op.k] = @ + 1000]
     [] op.kind = "leaf_pos"   -> [seg EXCEPT !.leaf_pos[op.k] = op.q]
     [] op.kind = "omit_leaf"  -> [seg EXCEPT !.leaf_pos = DropAt(@, op.k), !.leaf_data = DropAt(@, op.k)]
+    [] op.kind = "omit_pair"  -> [seg EXCEPT !.leaf_pos = DropAt(DropAt(@, op.k), op.k), !.leaf_data = DropAt(DropAt(@, op.k), op.k)]
     [] op.kind = "hash"       -> [seg EXCEPT !.hashes[op.k] = Junk]
     [] op.kind = "drop_hash"  -> [seg EXCEPT !.hash_pos = DropAt(@, op.k), !.hashes = DropAt(@, op.k)]
     [] op.kind = "proof"      -> [seg EXCEPT !.proof[op.k] = Junk]
@@ -287,6 +288,9 @@ Ops(seg, nl) ==
   {[kind |-> "leaf_data", k |-> k, q |-> 0] : k \in 1..Len(seg.leaf_pos)}
   \cup UNION {{[kind |-> "leaf_pos", k |-> k, q |-> q] : q \in PosMoves(seg, k, last)} : k \in 1..Len(seg.leaf_pos)}
   \cup {[kind |-> "omit_leaf", k |-> k, q |-> 0] : k \in 1..Len(seg.leaf_pos)}
+  \* both leaves of a sibling pair omitted (their parent's hash is among the hashes a producer sends)
+  \cup {[kind |-> "omit_pair", k |-> k, q |-> 0] : k \in {j \in 1..(Len(seg.leaf_pos) - 1) :
+                  seg.leaf_pos[j+1] = seg.leaf_pos[j] + 1 /\ M!IsLeftSiblingC(seg.leaf_pos[j])}}
   \cup {[kind |-> "hash", k |-> k, q |-> 0] : k \in 1..Len(seg.hash_pos)}
   \cup {[kind |-> "drop_hash", k |-> k, q |-> 0] : k \in 1..Len(seg.hash_pos)}
   \cup {[kind |-> "proof", k |-> k, q |-> 0] : k \in 1..Len(seg.proof)}
@@ -324,6 +328,7 @@ NeededHashPos(s, seg, bm) ==
 DependsOn(s, seg, bm, op) ==
   LET size == SizeOf(s.nl) IN
   CASE op.kind \in {"leaf_data", "leaf_pos", "omit_leaf"} -> LeafRequired(bm, seg.leaf_pos[op.k], size)
+    [] op.kind = "omit_pair" -> LeafRequired(bm, seg.leaf_pos[op.k], size)     \* siblings are required together
     [] op.kind \in {"hash", "drop_hash"} -> seg.hash_pos[op.k] \in NeededHashPos(s, seg, bm)
     [] op.kind \in {"proof", "drop_proof"} -> TRUE
     [] OTHER -> FALSE
